@@ -113,6 +113,10 @@ struct Inner {
     inval_lock: Vec<usize>,
     /// ranges handed out by `realloc_array`: (base, bytes, epoch)
     fresh: Vec<(usize, usize, u64)>,
+    /// `abort_nounwind`: parked threads leave the session and run on freely
+    /// instead of unwinding (they may stand below frames of compiled Roto
+    /// code, through which a panic cannot travel)
+    nounwind: bool,
 }
 
 /// One controlled execution of a set of threads.
@@ -181,6 +185,7 @@ impl Session {
                 op_epoch: vec![0; threads],
                 inval_lock: vec![],
                 fresh: vec![],
+                nounwind: false,
             }),
             cv: Condvar::new(),
         })
@@ -293,6 +298,9 @@ impl Session {
     ) {
         if self.park_core(tid, site, kind, lock_id, probe) {
             CUR.with(|c| *c.borrow_mut() = None);
+            if self.inner.lock().unwrap().nounwind {
+                return;
+            }
             std::panic::panic_any(Aborted);
         }
     }
@@ -351,6 +359,18 @@ impl Session {
     pub fn abort(&self) {
         let mut g = self.inner.lock().unwrap();
         g.aborted = true;
+        self.cv.notify_all();
+    }
+
+    /// End the session without unwinding anybody: every parked thread
+    /// leaves the session and runs on freely (a thread that waits for a lock
+    /// held by another waiting thread stays blocked for good: the caller must
+    /// not join the threads of a deadlocked session). For threads that call
+    /// the list operations through compiled Roto code.
+    pub fn abort_nounwind(&self) {
+        let mut g = self.inner.lock().unwrap();
+        g.aborted = true;
+        g.nounwind = true;
         self.cv.notify_all();
     }
 }
